@@ -446,25 +446,34 @@ def _oracle_pipe(node, ops, outs, logs):
         return [("TransformedTargetForecaster:parts-fail-where-pipeline-succeeds", "the spelled-out composition fails earlier than the pipeline")]
     ftags = _tags(inner)
     ttags = {("T", t[0]) for t in trs}
-    tainted = False
+    tainted = None   # key of the first update that handed untransformed data (later forecasts are its consequences)
     seen = set()
     for j in range(n):
         kind = ops[j][0]
         if kind in ("fit", "upd"):
             site = "fit" if kind == "fit" else "update"
+            if kind == "fit":
+                tainted = None   # everything is cloned and fitted afresh
             if not _log_close(_only(logs[j], ftags), _only(r_log[j], ftags)):
                 key = "TransformedTargetForecaster.%s:final-forecaster-handed-untransformed-data" % site
-                if kind == "upd":
-                    tainted = True
+                if kind == "upd" and not tainted:
+                    tainted = key
                 if key not in seen:
                     seen.add(key)
                     fails.append((key, "call %d: final forecaster was handed %s, the transformed representation is %s"
                                   % (j, _only(logs[j], ftags), _only(r_log[j], ftags))))
-            if kind == "fit" and not _log_close(_only(logs[j], ttags), _only(r_log[j], ttags)):
-                key = "TransformedTargetForecaster.fit:transformers-not-fitted-in-order-on-transformed-series"
+            t_real, t_spec = _only(logs[j], ttags), _only(r_log[j], ttags)
+            if kind == "upd":   # what each transformer's `update` was handed
+                t_real, t_spec = [e for e in t_real if e[2] == "update"], [e for e in t_spec if e[2] == "update"]
+            if not _log_close(t_real, t_spec):
+                # the representation is defined by the transformers: each one works on the series transformed so far
+                key = ("TransformedTargetForecaster.fit:transformers-not-fitted-in-order-on-transformed-series" if kind == "fit"
+                       else "TransformedTargetForecaster.update:transformers-handed-untransformed-data")
+                if kind == "upd" and not tainted:
+                    tainted = key
                 if key not in seen:
                     seen.add(key)
-                    fails.append((key, "call %d: transformers were handed %s, expected %s" % (j, _only(logs[j], ttags), _only(r_log[j], ttags))))
+                    fails.append((key, "call %d: transformers were handed %s, expected %s" % (j, t_real, t_spec)))
         else:
             inv = [e[1] for e in logs[j] if e[0] == "T" and e[2] == "inverse" and ("T", e[1]) in ttags]
             exp_inv = [t[0] for t in reversed(trs) if not t[4]]
@@ -476,8 +485,7 @@ def _oracle_pipe(node, ops, outs, logs):
             if not _ser_close(outs[j], r_out[j]):
                 # after an update that handed raw data to the final forecaster its state differs from the
                 # specified one; the wrong forecast is then a consequence of that (already reported) failure
-                key = ("TransformedTargetForecaster.update:final-forecaster-handed-untransformed-data" if tainted
-                       else "TransformedTargetForecaster.predict:not-inverse-chain-of-final-forecast")
+                key = tainted or "TransformedTargetForecaster.predict:not-inverse-chain-of-final-forecast"
                 if key not in seen:
                     seen.add(key)
                     fails.append((key, "call %d: got %s, the composition of the parts gives %s" % (j, outs[j], r_out[j])))
